@@ -14,4 +14,38 @@ theorem keySetEq_insert_false {k : Str} {derived : List Str} (v : JShape) (pre p
   unfold keySetEq
   rw [this, Bool.false_and]
 
+/-- a candidate that declares the keys and whose attempt succeeds makes the ranking succeed -/
+theorem foldl_bestStep_isSome (ks : List Str) :
+    ∀ (cands : List Cand) (acc : Option (ClassId × Nat)),
+      (acc.isSome || cands.any (fun c => localNamesMatch ks c.localNames && c.attempt.isSome)) = true →
+      (cands.foldl (bestStep ks) acc).isSome = true := by
+  intro cands
+  induction cands with
+  | nil => intro acc h; simpa using h
+  | cons c cs ih =>
+    intro acc h
+    rw [List.foldl_cons]
+    apply ih
+    simp only [List.any_cons, Bool.or_eq_true, Bool.and_eq_true] at h ⊢
+    rcases h with h | ⟨hm, ha⟩ | h
+    · left
+      cases acc with
+      | none => simp at h
+      | some p =>
+        obtain ⟨i, b⟩ := p
+        unfold bestStep
+        split
+        · cases c.attempt with
+          | none => rfl
+          | some sc => simp only; split <;> rfl
+        · rfl
+    · left
+      cases hatt : c.attempt with
+      | none => simp [hatt] at ha
+      | some sc =>
+        cases acc with
+        | none => simp [bestStep, hm, hatt]
+        | some p => obtain ⟨i, b⟩ := p; simp only [bestStep, hm, hatt, if_true]; split <;> rfl
+    · right; simpa [Bool.and_eq_true] using h
+
 end Proofs.C10Dict
